@@ -116,6 +116,10 @@ func genDBody(r *rnd, depth int, n *int) DBody {
 			if strings.HasPrefix(it.Expr, "<<") {
 				it.LineCmt = "" // nothing may follow a heredoc's closing marker
 			}
+			if r.chance(1, 12) {
+				*n++
+				it.EqCmt = fmt.Sprintf("/* c%d */", *n)
+			}
 		} else {
 			it.Type = blockTypes[r.n(len(blockTypes))]
 			nl := r.n(3)
@@ -134,6 +138,16 @@ func genDBody(r *rnd, depth int, n *int) DBody {
 			it.Body = &nb
 			if r.chance(1, 8) {
 				it.OpenCmt = cmt(r, n)
+			}
+			if r.chance(1, 10) {
+				*n++
+				it.LabelCmt = fmt.Sprintf("/* c%d */", *n)
+			}
+			if r.chance(1, 8) {
+				nb.Tail = []string{cmt(r, n)}
+				if r.chance(1, 3) {
+					nb.Tail = append(nb.Tail, cmt(r, n))
+				}
 			}
 			if r.chance(1, 6) {
 				// single-line block: at most one attribute, no comments inside
@@ -201,13 +215,20 @@ func renderBody(b *DBody, ind string, nl string, sb *strings.Builder) {
 			sb.WriteString(it.Inline + " ")
 		}
 		if it.Name != "" {
-			sb.WriteString(it.Name + it.Eq + strings.ReplaceAll(it.Expr, "\n", nl))
+			sb.WriteString(it.Name + it.Eq)
+			if it.EqCmt != "" {
+				sb.WriteString(it.EqCmt + " ")
+			}
+			sb.WriteString(strings.ReplaceAll(it.Expr, "\n", nl))
 		} else {
 			sb.WriteString(it.Type)
 			if it.PreLabel != "" {
 				sb.WriteString(" " + it.PreLabel)
 			}
-			for _, l := range it.Labels {
+			for li, l := range it.Labels {
+				if li == len(it.Labels)-1 && li > 0 && it.LabelCmt != "" {
+					sb.WriteString(" " + it.LabelCmt)
+				}
 				switch {
 				case l.Raw != "":
 					sb.WriteString(" " + l.Raw)
@@ -216,6 +237,9 @@ func renderBody(b *DBody, ind string, nl string, sb *strings.Builder) {
 				default:
 					sb.WriteString(" " + quoteLabel(l.Text))
 				}
+			}
+			if it.LabelCmt != "" && len(it.Labels) <= 1 {
+				sb.WriteString(" " + it.LabelCmt)
 			}
 			if it.OneLine {
 				sb.WriteString(" {")
@@ -240,6 +264,9 @@ func renderBody(b *DBody, ind string, nl string, sb *strings.Builder) {
 			sb.WriteString(" " + it.LineCmt)
 		}
 		sb.WriteString(nl)
+	}
+	for _, c := range b.Tail {
+		sb.WriteString(ind + c + nl)
 	}
 }
 
